@@ -1,7 +1,9 @@
 import AdfObdd.ServerProofs
 import AdfObdd.ServerCred
 import AdfObdd.ServerNonint
+import AdfObdd.ServerNonintJ
 import AdfObdd.ServerMention
+import AdfObdd.ServerCmdProofs
 /-! # C17 — the web service isolates users and protects credentials
 
     Theorems about the executable handler model `ServerM` (AdfObdd/ServerModel.lean), which the
@@ -472,7 +474,8 @@ what it would be if that user were alone":
   (treated separately: `mentions_only_harmless` + `noop_event_unobservable` — such an event changes
   nothing but the response to its own jar; the two results are not yet merged into one statement);
 * a user is a cookie jar here; two jars logging into the same account are one user of the property
-  and are excluded by the hypothesis as well;
+  and are excluded by the hypothesis of THIS statement - `noninterference_jars` below removes that
+  restriction (a user = any set of cookie jars);
 * requests are atomic (isolation at command granularity is `isolation_commands`).
 That the hypothesis cannot be dropped is shown by `stale_cookie_interferes` and
 `late_write_interferes` (D9) below: in both, a name is re-used while a session resp. an unfinished
@@ -494,6 +497,63 @@ theorem noninterference_static (E : Env T H A R) (S : T → Bool) (j : Nat) (es 
   nonint_run E S j es {} {} ⟨DbSim.refl .., rfl⟩
     ⟨(by intro u hu; cases hu), (by intro k _ u hu; cases hu), (by intro t ht; cases ht)⟩
     ⟨(by intro u hu; cases hu), (by intro k _ u hu; cases hu), (by intro t ht; cases ht)⟩ h
+
+/-- **noninterference_jars** (any number of jars - sessions - per user). A user is a SET `J` of cookie
+jars: all browsers / devices of one person, logged in to the same account (or to several accounts of
+his). Discipline (`DisciplinedJ`): mentioning an account name claims it for the mentioning jar; a jar
+of `J` mentions a name only if a jar of `J` claimed it last or nothing of that name exists any more;
+a jar outside `J` mentions a name that a jar of `J` claimed last only when nothing of it exists any more.
+Nothing is required among the jars of `J`. Then, for every interleaving of everybody's requests and
+task events, what the user observes - the responses to the requests of ALL his jars, in order, each
+with the jar it went to - is exactly what he would observe if only the events of his jars happened.
+`noninterference_partial` is the instance `J = {j}` (`noninterference_partial_from_jars`). Still
+partial w.r.t. the property text in the two other respects listed at `noninterference_partial`
+(name-uniqueness conflicts are excluded by the hypothesis; requests are atomic). -/
+theorem noninterference_jars (E : Env T H A R) (J : Nat → Bool) (es : List (Event T))
+    (h : DisciplinedJ E J (fun _ => none) {} es) :
+    obsJ J (runAll E {} es).2 = obsJ J (runAll E {} (es.filter (fun e => J e.jar))).2 :=
+  nonint_dynJ E J es (fun _ => none) {} {} ⟨DbSim.refl .., fun _ _ => rfl⟩
+    ⟨(by intro k _ u hu; cases hu), (by intro k _ u hu; cases hu), (by intro t ht; cases ht)⟩
+    ⟨(by intro k _ u hu; cases hu), (by intro k _ u hu; cases hu), (by intro t ht; cases ht)⟩
+    ⟨(by intro u hu; cases hu), (by intro p hp; cases hp), (by intro i hi; cases hi), (fun _ _ => rfl),
+     (by intro t ht; cases ht)⟩ h
+
+/-- the static special case for a set of jars -/
+theorem noninterference_static_jars (E : Env T H A R) (S : T → Bool) (J : Nat → Bool) (es : List (Event T))
+    (h : ∀ e ∈ es, (J e.jar = true → e.namesIn S) ∧ (J e.jar = false → e.namesIn (fun x => !S x))) :
+    obsJ J (runAll E {} es).2 = obsJ J (runAll E {} (es.filter (fun e => J e.jar))).2 :=
+  nonint_runJ E S J es {} {} ⟨DbSim.refl .., fun _ _ => rfl⟩
+    ⟨(by intro k _ u hu; cases hu), (by intro k _ u hu; cases hu), (by intro t ht; cases ht)⟩
+    ⟨(by intro k _ u hu; cases hu), (by intro k _ u hu; cases hu), (by intro t ht; cases ht)⟩ h
+
+/-- the one-jar discipline is the discipline of the singleton set -/
+theorem disciplinedJ_of_disciplined (E : Env T H A R) (j : Nat) : ∀ (es : List (Event T)) (own : T → Option Nat)
+    (st : State T H A R), Disciplined E j own st es → DisciplinedJ E (fun k => decide (k = j)) own st es := by
+  intro es
+  induction es with
+  | nil => intro _ _ _; trivial
+  | cons e es ih =>
+    intro own st h
+    refine ⟨fun n hn => ?_, ih _ _ h.2⟩
+    rcases h.1 n hn with h1 | h1
+    · left
+      by_cases hj : e.jar = j
+      · rw [if_pos hj] at h1
+        simp [ownedByJ, h1, hj]
+      · rw [if_neg hj] at h1
+        cases ho : own n with
+        | none => simp [ownedByJ, hj]
+        | some k =>
+          have : k ≠ j := by intro e'; rw [ho, e'] at h1; exact h1 rfl
+          simp [ownedByJ, hj, this]
+    · exact Or.inr h1
+
+/-- `noninterference_partial` IS the one-jar instance of `noninterference_jars` -/
+theorem noninterference_partial_from_jars (E : Env T H A R) (j : Nat) (es : List (Event T))
+    (h : Disciplined E j (fun _ => none) {} es) :
+    obs j (runAll E {} es).2 = obs j (runAll E {} (es.filter (fun e => decide (e.jar = j)))).2 := by
+  have := noninterference_jars E (fun k => decide (k = j)) es (disciplinedJ_of_disciplined E j es _ _ h)
+  exact congrArg (List.map (·.2)) this
 
 end
 
@@ -592,6 +652,71 @@ example : Disciplined E0 1 (fun _ => none) {} histReuse := by
   · intro n hn; simp [evNames, reqNames] at hn; subst hn; left; simp [Event.jar, evNames, reqNames]
   · intro n hn; simp [evNames, reqNames] at hn
 
+/-- two devices of alice (jars 0 and 1, both logged in to account 1) and a stranger (jar 2, account 2):
+alice adds a problem on device 0 and reads it on device 1 while its parse task runs and after; the
+stranger registers, logs in and adds a problem of the same name in between -/
+def histTwoJars : List (Event Nat) :=
+  [.req ⟨0, .register 1 7 0⟩, .req ⟨0, .login 1 7⟩, .req ⟨1, .login 1 7⟩, .req ⟨2, .register 2 8 1⟩,
+   .req ⟨0, .add 5 (some 9) none .naive 200 201⟩, .req ⟨2, .login 2 8⟩, .req ⟨1, .get 5⟩,
+   .req ⟨2, .add 5 (some 4) none .naive 300 301⟩, .finish 0 0, .finish 2 0, .write 2 0, .write 0 0,
+   .req ⟨1, .get 5⟩, .req ⟨1, .solve 5 .ground⟩, .req ⟨2, .list⟩, .finish 1 0, .write 1 0, .req ⟨0, .get 5⟩]
+
+def jars01 : Nat → Bool := fun k => decide (k = 0 ∨ k = 1)
+
+-- non-vacuity of `noninterference_jars`: the discipline holds for alice's two jars (the one-jar
+-- discipline fails for jar 1: it mentions the name 1 that jar 0 claimed, while account 1 exists)
+theorem free_200_twoJars : Free (200 : Nat) (runAll E0 {} (histTwoJars.take 4)).1 := by
+  refine ⟨by decide, by decide, by decide, ?_, by decide⟩
+  intro k
+  by_cases h0 : k = 0
+  · subst h0; decide
+  by_cases h1 : k = 1
+  · subst h1; decide
+  by_cases h2 : k = 2
+  · subst h2; decide
+  rw [runAll_sess_untouched E0 k _ _ (by
+    intro e he
+    simp only [histTwoJars, List.take_succ_cons, List.take_zero, List.mem_cons, List.not_mem_nil, or_false] at he
+    rcases he with rfl | rfl | rfl | rfl <;> simp [Event.jar] <;> omega)]
+  intro h; cases h
+
+example : DisciplinedJ E0 jars01 (fun _ => none) {} histTwoJars := by
+  refine ⟨?_, ?_, ?_, ?_, ?_, ?_, ?_, ?_, ?_, ?_, ?_, ?_, ?_, ?_, ?_, ?_, ?_, ?_, trivial⟩
+  · intro n hn; right
+    exact ⟨(by intro u hu; cases hu), (by intro p hp; cases hp), (by intro i hi; cases hi), (by intro k h; cases h),
+      (by intro t ht; cases ht)⟩
+  · intro n hn; simp [evNames, reqNames] at hn; subst hn; left; simp [Event.jar, evNames, reqNames, ownedByJ, jars01]
+  · intro n hn; simp [evNames, reqNames] at hn; subst hn; left; simp [Event.jar, evNames, reqNames, ownedByJ, jars01]
+  · intro n hn; simp [evNames, reqNames] at hn; subst hn; left; simp [Event.jar, evNames, reqNames, ownedByJ, jars01]
+  · intro n hn; simp [evNames, reqNames] at hn; subst hn; right; exact free_200_twoJars
+  · intro n hn; simp [evNames, reqNames] at hn; subst hn; left; simp [Event.jar, evNames, reqNames, ownedByJ, jars01]
+  · intro n hn; simp [evNames, reqNames] at hn
+  · intro n hn; simp [evNames, reqNames] at hn; subst hn; left; simp [Event.jar, evNames, reqNames, ownedByJ, jars01]
+  · intro n hn; simp [evNames] at hn
+  · intro n hn; simp [evNames] at hn
+  · intro n hn; simp [evNames] at hn
+  · intro n hn; simp [evNames] at hn
+  · intro n hn; simp [evNames, reqNames] at hn
+  · intro n hn; simp [evNames, reqNames] at hn
+  · intro n hn; simp [evNames, reqNames] at hn
+  · intro n hn; simp [evNames] at hn
+  · intro n hn; simp [evNames] at hn
+  · intro n hn; simp [evNames, reqNames] at hn
+example : ¬ Disciplined E0 1 (fun _ => none) {} histTwoJars := by
+  intro h
+  have := h.2.2.1 1 (by simp [evNames, reqNames])
+  rcases this with h1 | h1
+  · simp [Event.jar, evNames, reqNames] at h1
+  · exact h1.users ⟨1, some (0, 7)⟩ (by decide) rfl
+-- … and what alice observes on her two devices: device 1 sees the problem added on device 0, first
+-- with its parse task running, then parsed; its solve is accepted; device 0 then sees the result
+example : (obsJ jars01 (runAll E0 {} histTwoJars).2).map (fun x => (x.1, x.2.status)) =
+    [(0, 200), (0, 200), (1, 200), (0, 200), (1, 200), (1, 200), (1, 200), (0, 200)] := by decide
+example : ((obsJ jars01 (runAll E0 {} histTwoJars).2).map (·.2.body))[4]? =
+    some (.problem ⟨5, 9, .naive, .none, {}, [.parse]⟩) := by decide
+example : ((obsJ jars01 (runAll E0 {} histTwoJars).2).map (·.2.body)).getLast? =
+    some (.problem ⟨5, 9, .naive, .some 9, { ground := .some 9 }, []⟩) := by decide
+
 /-- **Counterexample 1 (stale cookie).** Alice is logged in on two devices (jars 0 and 1) and deletes
 her account on the first; somebody else (jar 2) registers the name `alice` and adds a problem; the
 second device's cookie still says `alice`, and its `delete account` removes the new owner's problems
@@ -623,11 +748,359 @@ theorem late_write_interferes :
 example : (obs 1 (runAll E0 {} histD9).2).getLast?.map (·.body) =
     some (.problem ⟨5, 4, .naive, .some 4, { ground := .some 9 }, []⟩) := by decide
 
+/-! ## 7. command granularity: requests interleave between their database commands
+
+The handlers are `async fn`s that `.await` every MongoDB call, so concurrent requests interleave at
+the granularity of one database command, and the background tasks write later still.  `ServerCmd`
+(AdfObdd/ServerCmd.lean) is the concurrent semantics over the SAME handler programs
+(`ServerM.handler`) and the SAME command meaning (`ServerM.exec`): a pool of requests in flight,
+each with the identity decoded from its cookie on arrival; a scheduler action lets one of them
+execute its NEXT command atomically (`Act.cmd i`), delivers a response (`Act.deliver i`, the cookie
+change reaches the jar only then), accepts a new request (`Act.arrive`), or is a background-task event.
+Every command executed is logged with its source: the log is what the check's concurrent monitors
+observe on the real server.  The theorems of this section quantify over ALL schedules. -/
+
+section cmdgranular
+variable {T H A R : Type} [DecidableEq T]
+open ServerCmd
+
+/-- **the atomic model is the sequential special case.** A history of the atomic model, run in the
+command-granular model under the schedule in which each request arrives, executes all its commands
+and is answered before anything else happens (`seqSchedule`), gives the same database, the same
+cookie jars, the same responses in the same order, nobody left in flight, and the atomic model's
+command log.  Generic in the handler program, hence for ALL request kinds. -/
+theorem atomic_is_sequential_schedule (E : Env T H A R) (es : List (Event T)) :
+    (runC E {} (seqSchedule E {} es)).db = (runAll E {} es).1.db ∧
+    (runC E {} (seqSchedule E {} es)).sess = (runAll E {} es).1.sess ∧
+    (runC E {} (seqSchedule E {} es)).pool = [] ∧
+    (runC E {} (seqSchedule E {} es)).out = (runAll E {} es).2 ∧
+    (runC E {} (seqSchedule E {} es)).log = atomicLog E {} es := by
+  have h := atomic_is_sequential E es {} {} rfl rfl rfl
+  simpa using h
+
+/-- … and locally: in ANY state of the concurrent model (whatever else is in flight), a request that
+arrives, runs all its commands and is answered without anybody else moving has exactly the effect
+of the atomic step `stepT` on database, cookie jar, response and command log -/
+theorem sequential_request_is_atomic_step (E : Env T H A R) (s : CState T H A R) (rq : Request T) :
+    runC E s (seqRequest E ⟨s.db, s.sess⟩ s.pool.length rq) =
+      { s with db := (stepT E ⟨s.db, s.sess⟩ rq).1.db,
+               sess := (stepT E ⟨s.db, s.sess⟩ rq).1.sess,
+               log := s.log ++ runLog (.request rq.jar (s.sess rq.jar) rq.req)
+                  (handler E rq.jar (s.sess rq.jar) rq.req) s.db,
+               out := s.out ++ [(rq.jar, (stepT E ⟨s.db, s.sess⟩ rq).2.1)] } :=
+  seqRequest_atomic E s rq
+
+/-- **the command log, under every schedule** (this is what the check's isolation monitor observes).
+Every command in the log carries the identity of its source — for a request: the account named in
+its session cookie when it arrived (for an unauthenticated `add`: the temporary account it creates);
+for a background write: the user name the task was spawned with:
+* every access to the problem collection (find, insert, `$set`, delete, rename) has exactly that
+  user name in its filter / inserted document (`probUser`);
+* in `users`, only that account's record is replaced or deleted, records are created only under a
+  name the request mentions, looked up only for that account or a name the request mentions
+  (`ServerM.Owned`).
+Hence no command on behalf of `u` reads or writes a problem document of `v ≠ u`
+(`command_others_untouched` for the writes, `ServerM.exec_rok` for the reads). -/
+theorem log_carries_identity (E : Env T H A R) (sched : List (Act T)) :
+    ∀ e ∈ (runC E {} sched).log,
+      Owned e.src.jar e.src.actor e.src.names e.cmd ∧ ∀ u, probUser e.cmd = some u → e.src.actor = some u := by
+  intro e he
+  have h := EntryOk.owned E e ((Inv.run E sched {} (Inv.init E)).log e he)
+  exact ⟨h, ServerCmd.Owned.probUser h⟩
+
+/-- a find on the problem collection returns only documents whose `username` is the one in its
+filter, in whatever state it is executed (the read side of the previous theorem) -/
+theorem find_returns_own (db : Db T H A R) (u n : T) :
+    (∀ p, (exec db (.pFindOne u n)).2 = some p → p.username = u) ∧
+    (∀ p ∈ (exec db (.pFindAll u)).2, p.username = u) :=
+  ⟨fun p hp => (exec_rok db (.pFindOne u n) p hp).1, exec_rok db (.pFindAll u)⟩
+
+/-- **responses under every schedule** (the check's response monitor: "every problem shown to a jar
+was returned by a find carrying that jar's identity while the request was in flight").  Every piece of
+problem data in a delivered response is the image (`infoOf`: name, code, parsing, results) of a
+document `p` that the database returned to a `find_one` / `find` of a request of the SAME jar, logged
+with an identity equal to the document's `username` at that moment: a response never contains a
+problem that was, when read, owned by anybody but the identity the request acted for.  (Between the
+read and the delivery the document may have been renamed or deleted by that same identity from
+another device — at command granularity "contains a problem owned by" can only refer to the moment
+of the read.) -/
+theorem responses_from_own_finds (E : Env T H A R) (sched : List (Act T)) :
+    ∀ x ∈ (runC E {} sched).out, ∀ i ∈ infos x.2.body, ∃ e ∈ (runC E {} sched).log, ∃ p ts,
+      e.src.jar = x.1 ∧ p ∈ e.returned ∧ i = infoOf p ts ∧
+      probUser e.cmd = some p.username ∧ e.src.actor = some p.username := by
+  intro x hx i hi
+  have rinv := RInv.run E sched {} RInv.init
+  obtain ⟨e, he, id, rq, p, ts, h1, h2, h3⟩ := rinv.out x hx i hi
+  have hu := rinv.ret e he p h2
+  refine ⟨e, he, p, ts, by rw [h1]; rfl, h2, h3, hu, ?_⟩
+  exact (log_carries_identity E sched e he).2 _ hu
+
+/-- **unauthenticated requests obtain no problem data, under every schedule**: in every reachable state,
+a request in flight that arrived without a session (`id = none`) and has reached its response carries no
+problem data in it -/
+theorem unauth_no_data_all_schedules (E : Env T H A R) (sched : List (Act T)) (f : Flight T H A R) (r : Resp T R)
+    (hf : f ∈ (runC E {} sched).pool) (hid : f.id = none) (hr : f.prog = .ret r) : infos r.body = [] := by
+  have h := (Inv.run E sched {} (Inv.init E)).pool f hf
+  rw [hr] at h
+  cases h with
+  | ret _ h =>
+    cases hq : f.req <;> rw [hq] at h <;> simp only [RetShape] at h <;> first | exact h.1 | exact h.1 hid
+
+/-- **one command.** In every reachable state of the concurrent model, a scheduler step that is not a
+command issued for `v` (nor by a request whose payload names `v`) leaves the problems of `v` exactly
+as they are — whatever else is in flight. -/
+theorem command_others_untouched (E : Env T H A R) (sched : List (Act T)) (a : Act T) (v : T)
+    (h : ¬ actsOn v (runC E {} sched) a) :
+    ownedBy v (stepC E (runC E {} sched) a).db = ownedBy v (runC E {} sched).db :=
+  step_untouched E _ (Inv.run E sched {} (Inv.init E)) a v h
+
+/-- **isolation under every command-granular schedule.** After any schedule `pre`, let any schedule
+`sched` follow in which no executed command is issued for `v` (`QuietC`: requests of other
+identities not naming `v`, task writes of other users; arrivals and deliveries are unrestricted, and
+requests of `v` may be in flight as long as they do not move): the problems of `v` are unchanged. -/
+theorem isolation_all_schedules (E : Env T H A R) (v : T) (pre sched : List (Act T))
+    (h : QuietC E v (runC E {} pre) sched) :
+    ownedBy v (runC E (runC E {} pre) sched).db = ownedBy v (runC E {} pre).db :=
+  run_untouched E v sched _ (Inv.run E pre {} (Inv.init E)) h
+
+/-- **credentials under every schedule.** (i) every document the `users` collection ever receives
+(log entries `insert_one` / `replace_one`) is a temporary account without password or
+`{name, hash salt pw}` built from the fields of the very `register` / `update` request that issued the
+command; (ii) in every reachable database every stored credential is a `hash salt pw`. -/
+theorem credentials_all_schedules (E : Env T H A R) (sched : List (Act T)) :
+    (∀ e ∈ (runC E {} sched).log, ∀ x, userDoc e.cmd = some x →
+      x.password = none ∨ ∃ jar id u p salt,
+        (e.src = .request jar id (.register u p salt) ∨ e.src = .request jar id (.update u p salt)) ∧
+        x = ⟨u, some (E.hash salt p)⟩) ∧
+    (∀ x ∈ (runC E {} sched).db.users, ∀ h, x.password = some h → ∃ salt pw, h = E.hash salt pw) := by
+  have inv := Inv.run E sched {} (Inv.init E)
+  exact ⟨fun e he x hx => EntryOk.userDoc E e (inv.log e he) x hx, inv.hashed⟩
+
+/-- … never the clear password, for a hash that never returns its input (assumed of argon2, whose
+output is a PHC string) -/
+theorem never_plaintext_all_schedules (E : Env T T A R) (hne : ∀ s p, E.hash s p ≠ p) (sched : List (Act T)) :
+    (∀ e ∈ (runC E {} sched).log, ∀ x, userDoc e.cmd = some x → ∀ jar id u p salt,
+      (e.src = .request jar id (.register u p salt) ∨ e.src = .request jar id (.update u p salt)) →
+      x.password ≠ some p) ∧
+    (∀ x ∈ (runC E {} sched).db.users, ∀ h, x.password = some h → ∃ salt pw, h = E.hash salt pw ∧ h ≠ pw) := by
+  obtain ⟨h1, h2⟩ := credentials_all_schedules E sched
+  refine ⟨?_, ?_⟩
+  · intro e he x hx jar id u p salt hsrc hp
+    rcases h1 e he x hx with h | ⟨jar', id', u', p', salt', hsrc', hx'⟩
+    · rw [h] at hp; cases hp
+    · have : p' = p ∧ True := by
+        rcases hsrc with h | h <;> rcases hsrc' with h' | h' <;> rw [h] at h' <;> cases h' <;> exact ⟨rfl, trivial⟩
+      rw [hx', this.1] at hp
+      simp only [Option.some.injEq] at hp
+      exact hne _ _ hp
+  · intro x hx h hp
+    obtain ⟨salt, pw, hh⟩ := h2 x hx h hp
+    exact ⟨salt, pw, hh, by rw [hh]; exact hne salt pw⟩
+
+/-- **the unique index: account names are unique under every schedule.** No check-then-act is
+involved: `insert_one` / `replace_one` are refused BY THE DATABASE for a duplicate key
+(`ServerCmd.exec_users_nodup`: every single command preserves uniqueness, in any state, whoever
+issues it).  Of two concurrent `register`s of the same name exactly one is answered 200; the loser is
+answered `409 Username is already taken` if its `find_one` came after the winner's insert, and
+`500` with the driver's `E11000 duplicate key` text (`Msg.dbError`; user.rs:92-95 maps the
+`insert_one` error to `InternalServerError().body(err.to_string())`) if both passed the check —
+see `register_race` below. -/
+theorem usernames_unique_all_schedules (E : Env T H A R) (sched : List (Act T)) :
+    ((runC E {} sched).db.users.map (·.username)).Nodup :=
+  (Inv.run E sched {} (Inv.init E)).nodup
+
+/-- **problem names per user: unique if `add` is not interleaved** — the hypothesis that excludes the
+race `add_race_duplicate` below.  There is NO index on `(username, name)` in `adf-problems`
+(main.rs creates only the `users.username` index); `add_adf_problem` checks with `find_one` and then
+`insert_one`s (adf.rs:376, 414).  An `add` that runs from arrival to response without another
+command in between (= the atomic step, `sequential_request_is_atomic_step`) never creates a second
+document with the same `(username, name)`. -/
+theorem add_unique_if_not_interleaved (E : Env T H A R) (s : CState T H A R) (jar : Nat) (name : T)
+    (code file : Option T) (parsing : Parsing) (fu fp : T) (h : ProbUnique s.db) :
+    ProbUnique (runC E s (seqRequest E ⟨s.db, s.sess⟩ s.pool.length ⟨jar, .add name code file parsing fu fp⟩)).db := by
+  rw [seqRequest_atomic]
+  exact add_atomic_unique E ⟨s.db, s.sess⟩ jar name code file parsing fu fp h
+
+end cmdgranular
+
+/-! ### non-vacuity and the races (kernel-checked on the instance `E0`) -/
+
+open ServerCmd in
+/-- alice (account 1, password 7) registers and logs in from jar 0, sequentially -/
+def aliceIn : CState Nat (Nat × Nat) Nat Nat :=
+  runC E0 {} (seqSchedule E0 {} [.req ⟨0, .register 1 7 0⟩, .req ⟨0, .login 1 7⟩])
+
+open ServerCmd in
+/-- **FINDING (race in `add_adf_problem`, touches C16's "the models stored and returned for that
+problem are exactly the answers for the submitted code").**  Alice sends two `POST /adf/add` with the
+same problem name 5 and different codes (9 and 4) concurrently (two tabs of one browser — or two
+devices).  Schedule: both requests arrive; request A `find_one {name:5, username:alice}` → none;
+request B the same `find_one` → none; A `insert_one`; B `insert_one`; both spawn their parse task and
+are answered `200 Parsing started...`.  Now TWO documents `(alice, 5)` exist.  Both parse tasks
+`update_one {name:5, username:alice}`: first match, i.e. both write into A's document. -/
+def addRace : List (Act Nat) :=
+  [.arrive ⟨0, .add 5 (some 9) none .naive 200 201⟩, .arrive ⟨0, .add 5 (some 4) none .naive 200 201⟩,
+   .cmd 0, .cmd 1, .cmd 0, .cmd 1, .cmd 0, .cmd 1, .deliver 0, .deliver 0]
+
+section
+open ServerCmd
+
+-- the sequential schedule of the same two requests: the second one is refused (409), one document
+example : (runC E0 aliceIn (seqSchedule E0 ⟨aliceIn.db, aliceIn.sess⟩
+      [.req ⟨0, .add 5 (some 9) none .naive 200 201⟩, .req ⟨0, .add 5 (some 4) none .naive 200 201⟩])).out.map
+      (fun x => x.2.status) = [200, 200, 200, 409] := by decide
+
+/-- both racing `add`s are answered 200 and the collection holds two documents with the same
+`(username, name)` although it held none before: `ProbUnique` is NOT an invariant of all schedules -/
+theorem add_race_duplicate :
+    (runC E0 aliceIn addRace).out.map (fun x => x.2.status) = [200, 200, 200, 200] ∧
+    keyCount 1 5 aliceIn.db = 0 ∧ keyCount 1 5 (runC E0 aliceIn addRace).db = 2 ∧
+    ¬ ProbUnique (runC E0 aliceIn addRace).db := by
+  refine ⟨by decide, by decide, by decide, ?_⟩
+  intro h
+  exact absurd (h 1 5) (by decide)
+
+/-- … and its observable consequence: after both parse tasks have finished and written, `GET /adf/5`
+shows the code of the FIRST request (9) with the parse result of the SECOND (4); and once alice
+deletes problem 5, a second problem 5 appears, with code 4, that is never parsed (no task is
+running or will run for it) -/
+theorem add_race_wrong_answer :
+    (runC E0 (runC E0 aliceIn addRace)
+      ([.finish 0 0, .write 0 0, .finish 0 1, .write 0 1] ++ [.arrive ⟨0, .get 5⟩, .cmd 0, .cmd 0, .deliver 0])).out.getLast?
+      = some (0, ⟨200, .keep, .problem ⟨5, 9, .naive, .some 4, {}, []⟩⟩) ∧
+    (runC E0 (runC E0 aliceIn addRace)
+      ([.finish 0 0, .write 0 0, .finish 0 1, .write 0 1] ++ [.arrive ⟨0, .delete 5⟩, .cmd 0, .deliver 0] ++
+       [.arrive ⟨0, .get 5⟩, .cmd 0, .cmd 0, .deliver 0])).out.getLast?
+      = some (0, ⟨200, .keep, .problem ⟨5, 4, .naive, .none, {}, []⟩⟩) := by
+  constructor <;> decide
+
+-- the log satisfies `log_carries_identity` non-trivially: after the three commands of register and login
+-- (no identity, no problem access), the six commands of the race, all carrying alice's identity
+example : (runC E0 aliceIn addRace).log.map (fun e => (probUser e.cmd, e.src.actor)) =
+    List.replicate 3 (none, none) ++ List.replicate 4 (some 1, some 1) ++ List.replicate 2 (none, some 1) := by
+  decide
+
+-- non-vacuity of `unauth_no_data_all_schedules`: jar 3 (no session) asks for problem 5 while alice owns it: 401
+example : (runC E0 (runC E0 aliceIn addRace) [.arrive ⟨3, .get 5⟩]).pool.map (fun f => (f.id, f.prog matches .ret ⟨401, _, _⟩)) =
+    [(none, true)] := by decide
+-- non-vacuity of `responses_from_own_finds`: alice's `get 5` after the race was answered from a document
+-- returned to her own find (first match of the two documents)
+example : ((runC E0 (runC E0 aliceIn addRace) [.arrive ⟨0, .get 5⟩, .cmd 0, .cmd 0, .deliver 0]).log.filterMap
+    (fun e => if e.returned = [] then none else some (e.src.actor, e.returned.map (fun p => (p.username, p.name, p.code))))) =
+    [(some 1, [(1, 5, 9)])] := by decide
+
+/-- **a third race of the same kind: two concurrent `solve`s of one strategy.**  `solve_adf_problem`
+reads the document and the `currently_running` set and spawns its task afterwards (in the Rust the
+guard enters the set even later, on the blocking thread); two concurrent solves both pass the check,
+both are answered `200 Solving started...` (the atomic model answers the second `409`), two tasks
+run.  Both write the same value, so the stored answer is not affected. -/
+def solveRace : List (Act Nat) :=
+  [.arrive ⟨0, .add 5 (some 9) none .naive 200 201⟩, .cmd 0, .cmd 0, .cmd 0, .deliver 0, .finish 0 0, .write 0 0,
+   .arrive ⟨0, .solve 5 .ground⟩, .arrive ⟨0, .solve 5 .ground⟩,
+   .cmd 0, .cmd 1, .cmd 0, .cmd 1, .cmd 0, .cmd 1, .deliver 0, .deliver 0]
+
+theorem solve_race_two_tasks :
+    (runC E0 aliceIn solveRace).out.map (fun x => x.2.status) = [200, 200, 200, 200, 200] ∧
+    ((runC E0 aliceIn solveRace).db.tasks.map (fun t => t.input.task)) = [.parse, .solve .ground, .solve .ground] ∧
+    (runC E0 aliceIn (solveRace ++ [.finish 0 1, .write 0 1, .finish 0 2, .write 0 2, .arrive ⟨0, .get 5⟩, .cmd 0, .cmd 0, .deliver 0])).out.getLast?
+      = some (0, ⟨200, .keep, .problem ⟨5, 9, .naive, .some 9, { ground := .some 9 }, []⟩⟩) := by
+  refine ⟨by decide, by decide, by decide⟩
+
+/-- two clients register the same name 1 concurrently (passwords 7 and 8) -/
+def regRace (mid : List (Act Nat)) : CState Nat (Nat × Nat) Nat Nat :=
+  runC E0 {} ([.arrive ⟨0, .register 1 7 0⟩, .arrive ⟨1, .register 1 8 1⟩] ++ mid ++ [.deliver 0, .deliver 0])
+
+/-- **the register race, all six interleavings of the two `find_one; insert_one` pairs:** exactly one
+`200`; the loser gets `409` when its `find_one` comes after the winner's `insert_one`, and `500`
+(the database's duplicate-key error) when both `find_one`s came first; one record in every case -/
+theorem register_race :
+    ((regRace [.cmd 0, .cmd 0, .cmd 1, .cmd 1]).out.map (fun x => (x.1, x.2.status)) = [(0, 200), (1, 409)]) ∧
+    ((regRace [.cmd 0, .cmd 1, .cmd 0, .cmd 1]).out.map (fun x => (x.1, x.2.status)) = [(0, 200), (1, 500)]) ∧
+    ((regRace [.cmd 0, .cmd 1, .cmd 1, .cmd 0]).out.map (fun x => (x.1, x.2.status)) = [(0, 500), (1, 200)]) ∧
+    ((regRace [.cmd 1, .cmd 0, .cmd 0, .cmd 1]).out.map (fun x => (x.1, x.2.status)) = [(0, 200), (1, 500)]) ∧
+    ((regRace [.cmd 1, .cmd 0, .cmd 1, .cmd 0]).out.map (fun x => (x.1, x.2.status)) = [(0, 500), (1, 200)]) ∧
+    ((regRace [.cmd 1, .cmd 1, .cmd 0, .cmd 0]).out.map (fun x => (x.1, x.2.status)) = [(0, 409), (1, 200)]) ∧
+    (∀ mid ∈ [[Act.cmd 0, .cmd 0, .cmd 1, .cmd 1], [.cmd 0, .cmd 1, .cmd 0, .cmd 1], [.cmd 0, .cmd 1, .cmd 1, .cmd 0],
+               [.cmd 1, .cmd 0, .cmd 0, .cmd 1], [.cmd 1, .cmd 0, .cmd 1, .cmd 0], [.cmd 1, .cmd 1, .cmd 0, .cmd 0]],
+        ((regRace mid).db.users.map (·.username)) = [1]) := by
+  refine ⟨by decide, by decide, by decide, by decide, by decide, by decide, by decide⟩
+
+-- the loser's password is not stored: the record is the winner's, a hash under the winner's salt
+example : (regRace [.cmd 0, .cmd 1, .cmd 1, .cmd 0]).db.users = [⟨1, some (1, 8)⟩] := by decide
+-- non-vacuity of `credentials_all_schedules`: both inserts are in the log, each with the hash of its own request
+example : ((regRace [.cmd 0, .cmd 1, .cmd 1, .cmd 0]).log.filterMap (fun e => userDoc e.cmd)) =
+    [⟨1, some (1, 8)⟩, ⟨1, some (0, 7)⟩] := by decide
+
+/-- bob (account 2) registers, logs in (jar 1) and adds problem 5 while alice's requests are in
+flight: a schedule in which alice's in-flight `add` does not move is quiet for alice -/
+def bobActs : List (Act Nat) :=
+  [.arrive ⟨1, .register 2 8 1⟩, .arrive ⟨0, .add 6 (some 9) none .naive 200 201⟩, .cmd 0, .cmd 0, .deliver 0,
+   .arrive ⟨1, .login 2 8⟩, .cmd 1, .deliver 1, .arrive ⟨1, .add 5 (some 3) none .naive 300 301⟩,
+   .cmd 1, .cmd 1, .cmd 1, .deliver 1, .finish 1 0, .write 1 0]
+
+-- non-vacuity of `isolation_all_schedules`: `pre` = alice logged in, then the add race (she owns two
+-- documents); `bobActs` is quiet for alice (an `add` of hers even arrives and stays in flight) and changes
+-- the database
+example : QuietC E0 1 (runC E0 aliceIn addRace) bobActs := by
+  simp only [bobActs, QuietC, and_true]
+  refine ⟨?_, ?_, ?_, ?_, ?_, ?_, ?_, ?_, ?_, ?_, ?_, ?_, ?_, ?_, ?_⟩ <;>
+    first
+      | (intro h; exact h)
+      | (intro h; obtain ⟨f, hf, hx⟩ := h; revert hf hx; decide +revert)
+      | (intro h; obtain ⟨t, ht, hx⟩ := h; revert ht hx; decide +revert)
+example : (ownedBy 1 (runC E0 (runC E0 aliceIn addRace) bobActs).db).length = 2 ∧
+    (ownedBy 2 (runC E0 (runC E0 aliceIn addRace) bobActs).db).length = 1 := by decide
+
+/-- **a second check-then-act race, across requests of one account: `delete_account` ∥ `add`.**  Alice
+(two devices, jars 0 and 1) deletes her account on one while an `add` is in flight on the other:
+`delete_many {username:alice}`; then the add's `insert_one`; then `delete_one` of the user record.  The
+account is gone, the problem `(alice, 5)` stays; whoever registers the name `alice` next finds it in her
+list.  (The same family as `stale_cookie_interferes`: the name is re-used while something of its previous
+owner exists — excluded by the hypothesis of `noninterference_partial`; here no stale cookie is needed.) -/
+def deleteAddRace : List (Act Nat) :=
+  [.arrive ⟨1, .login 1 7⟩, .cmd 0, .deliver 0,
+   .arrive ⟨0, .deleteAccount⟩, .arrive ⟨1, .add 5 (some 9) none .naive 200 201⟩,
+   .cmd 1,            -- add: find_one {name:5, username:alice} → none
+   .cmd 0,            -- delete_account: delete_many {username:alice}
+   .cmd 1,            -- add: insert_one
+   .cmd 0,            -- delete_account: delete_one {username:alice} in users
+   .cmd 1, .deliver 0, .deliver 0, .finish 1 0, .write 1 0,
+   .arrive ⟨2, .register 1 8 1⟩, .cmd 0, .cmd 0, .deliver 0, .arrive ⟨2, .login 1 8⟩, .cmd 0, .deliver 0,
+   .arrive ⟨2, .list⟩, .cmd 0, .cmd 0, .deliver 0]
+
+theorem delete_add_race_orphan :
+    (runC E0 aliceIn deleteAddRace).out.map (fun x => (x.1, x.2.status)) =
+      [(0, 200), (0, 200), (1, 200), (0, 200), (1, 200), (2, 200), (2, 200), (2, 200)] ∧
+    (runC E0 aliceIn deleteAddRace).out.getLast? =
+      some (2, ⟨200, .keep, .problems [⟨5, 9, .naive, .some 9, {}, []⟩]⟩) := by
+  constructor <;> decide
+
+end
+
 end C17
 
+#print axioms C17.noninterference_jars
+#print axioms C17.noninterference_static_jars
+#print axioms C17.noninterference_partial_from_jars
 #print axioms C17.mentions_only_harmless
 #print axioms C17.request_not_acting_untouched
 #print axioms C17.isolation_mentions_allowed
 #print axioms C17.noop_event_unobservable
 #print axioms C17.stored_uses_request_salt
 #print axioms C17.same_password_distinct_salts
+#print axioms C17.atomic_is_sequential_schedule
+#print axioms C17.sequential_request_is_atomic_step
+#print axioms C17.log_carries_identity
+#print axioms C17.responses_from_own_finds
+#print axioms C17.unauth_no_data_all_schedules
+#print axioms C17.command_others_untouched
+#print axioms C17.isolation_all_schedules
+#print axioms C17.credentials_all_schedules
+#print axioms C17.never_plaintext_all_schedules
+#print axioms C17.usernames_unique_all_schedules
+#print axioms C17.add_unique_if_not_interleaved
+#print axioms C17.add_race_duplicate
+#print axioms C17.add_race_wrong_answer
+#print axioms C17.register_race
+#print axioms C17.delete_add_race_orphan
+#print axioms C17.solve_race_two_tasks
